@@ -18,7 +18,7 @@ def Kind.valued : Kind → Bool
 def Step.okAt (st : Step) (lo : Nat) : Prop :=
   match st with
   | .tok t _ c' => lo ≤ t.start ∧ (t.kind = .eof ∨ t.start < c'.endR) ∧ (t.kind.valued = false → t.value = []) ∧
-      t.kind ≠ .invalid
+      t.kind ≠ .invalid ∧ (t.kind = .name → t.value ≠ [])
   | .err _ => True
 
 theorem Step.okAt_mono {st : Step} {a b : Nat} (h : st.okAt a) (hab : b ≤ a) : st.okAt b := by
@@ -76,7 +76,7 @@ theorem readNumber_okAt (start : Cur) (rest0 : Bytes) : (readNumber start rest0)
 /-- a string token starts at the opening quote `q`, and the loop cursor only moves forward -/
 def Step.strAt (st : Step) (q lo : Nat) : Prop :=
   match st with
-  | .tok t _ c' => t.start = q ∧ lo < c'.endR ∧ t.kind.valued = true ∧ t.kind ≠ .eof
+  | .tok t _ c' => t.start = q ∧ lo < c'.endR ∧ t.kind.valued = true ∧ t.kind ≠ .eof ∧ t.kind ≠ .name
   | .err _ => True
 
 theorem Step.strAt_mono {st : Step} {q a b : Nat} (h : st.strAt q a) (hab : b ≤ a) : st.strAt q b := by
@@ -105,8 +105,8 @@ theorem Step.okAt_of_strAt {st : Step} {q lo : Nat} (h : st.strAt q lo) (hq : q 
   cases st with
   | err e => trivial
   | tok t r c =>
-    obtain ⟨h1, h2, h3, h4⟩ := h
-    refine ⟨by omega, .inr (by omega), fun hv => ?_, fun hk => ?_⟩
+    obtain ⟨h1, h2, h3, h4, h5⟩ := h
+    refine ⟨by omega, .inr (by omega), fun hv => ?_, fun hk => ?_, fun hk => absurd hk h5⟩
     · rw [h3] at hv; cases hv
     · rw [hk] at h3; cases h3
 
@@ -125,7 +125,8 @@ theorem readTokenBody_okAt (rest1 : Bytes) (c1 : Cur) : (readTokenBody rest1 c1)
     split
     · rename_i k hk
       obtain ⟨h1, _, h3⟩ := punct_valued hk
-      simp [Step.okAt, simpleTok, Cur.adv, h3]
+      have h4 : k ≠ .name := by intro e; rw [e] at h1; cases h1
+      simp [Step.okAt, simpleTok, Cur.adv, h3, h4]
     · split
       · split
         · simp [Step.okAt, simpleTok, Cur.adv]
